@@ -53,14 +53,20 @@ GETITEM0 = OP("GetitemOp", offset=0)
 _BOUND = re.compile(r"__BOUND_\d+$")
 
 
-def norm(x):
-    """Replace alpha-mangled names  foo__BOUND_17  by  foo__B  everywhere in a struct."""
+def norm(x, memo=None):
+    """Replace alpha-mangled names  foo__BOUND_17  by  foo__B  everywhere in a struct.  ``memo`` (id -> result)
+    lets a caller normalise many sub-structs of one struct in linear time."""
     if isinstance(x, str):
-        return _BOUND.sub("__B", x)
+        return _BOUND.sub("__B", x) if "__BOUND" in x else x
     if isinstance(x, tuple):
-        return tuple(norm(y) for y in x)
+        if memo is None:
+            return tuple(norm(y) for y in x)
+        r = memo.get(id(x))
+        if r is None:
+            r = memo[id(x)] = tuple(norm(y, memo) for y in x)
+        return r
     if isinstance(x, frozenset):
-        return frozenset(norm(y) for y in x)
+        return frozenset(norm(y, memo) for y in x)
     return x
 
 
@@ -349,13 +355,19 @@ RECIPE_LIST = [
     Recipe("dB7", "dom", "Bint[7]", DOM("Bint[7]")),
     Recipe("dB75", "dom", "Bint[7, 5]", DOM("Bint[7,5]")),
     Recipe("dR5", "dom", "Reals[5]", DOM("Reals[5]"), alt='Array["real", (5,)]'),
+    Recipe("dR7", "dom", "Reals[7]", DOM("Reals[7]")),
     Recipe("dR57", "dom", "Reals[5, 7]", DOM("Reals[5,7]"), alt='Array["real", (5, 7)]'),
     Recipe("dProd", "dom", "Product[Bint[7], Reals[5]]", ("Product", (DOM("Bint[7]"), DOM("Reals[5]")))),
+    Recipe("dProd2", "dom", "Product[Bint[7], Reals[7]]", ("Product", (DOM("Bint[7]"), DOM("Reals[7]")))),
     # ---- parametrised ops ------------------------------------------------------------------------------
     Recipe("oS0", "op", "ops.SumOp(-3, False)", OP("SumOp", axis=-3, keepdims=False), alt="ops.SumOp(axis=-3)"),
     Recipe("oS1", "op", "ops.SumOp(-3, True)", OP("SumOp", axis=-3, keepdims=True), alt="ops.SumOp(keepdims=True, axis=-3)"),
+    Recipe("oS2", "op", "ops.SumOp(-4, False)", OP("SumOp", axis=-4, keepdims=False), alt="ops.SumOp(-4)"),
+    Recipe("oG5", "op", "ops.GetitemOp(5)", OP("GetitemOp", offset=5)),
     Recipe("oG7", "op", "ops.GetitemOp(7)", OP("GetitemOp", offset=7), alt="ops.GetitemOp(offset=7)"),
     Recipe("oRs", "op", "ops.ReshapeOp((7, 5))", OP("ReshapeOp", shape=(7, 5)), alt="ops.ReshapeOp(shape=(7, 5))"),
+    Recipe("oRs2", "op", "ops.ReshapeOp((5, 7))", OP("ReshapeOp", shape=(5, 7))),
+    Recipe("oSl3", "op", "ops.GetsliceOp((slice(0, 7, 3),))", OP("GetsliceOp", index=(("slice", 0, 7, 3),))),
     Recipe("oSl", "op", "ops.GetsliceOp((slice(0, 7, 5),))", OP("GetsliceOp", index=(("slice", 0, 7, 5),)),
            alt="ops.GetsliceOp(index=(slice(0, 7, 5),))"),
     Recipe("oSl2", "op", "ops.GetsliceOp((slice(0, 7), 5))", OP("GetsliceOp", index=(("slice", 0, 7, None), 5))),
